@@ -148,15 +148,24 @@ def run_case(case):
             probes.append(('interleaved', checker, name))
         if i % 17 == 0 and name:
             probes.append(('direct+digest', checker, name + [digest]))
+        if i % 17 == 1:
+            # only a trailing ImplicitSha256Digest is left out of account; any other last component (a ParametersSha256Digest,
+            # a digest-sized generic component) is a component like the others
+            odd = [T.enc_tlv(2, b'\x07' * 32), T.enc_tlv(8, b'\x07' * 32)][(i // 17) % 2]
+            probes.append(('direct+other-last-component', checker, name + [odd]))
         for label, ck, nm in probes:
+            if label == 'direct+other-last-component':
+                want_here = L.match_all(sch, nm, fns, ex)
+            else:
+                want_here = want
             try:
                 got = lib_matches(ck, nm)
             except Exception as e:
                 kind = 'empty-name' if not nm else 'other'
                 r.bad(f'C11/match-raised/{type(e).__name__}/{kind}', f'{e!r} name={_show(nm)} :: {text}')
                 break
-            if got != want:
-                extra, missing = got - want, want - got
+            if got != want_here:
+                extra, missing = got - want_here, want_here - got
                 kind = 'spurious-match' if extra else 'missed-match'
                 r.bad(f'C11/{label.split("+")[0]}/{kind}', f'name={_show(nm)} spurious={_showset(extra)} missing={_showset(missing)} :: {text}')
                 break
@@ -245,7 +254,18 @@ def _large_case():
                                   'probe': st.lists(st.integers(0, 200), min_size=3, max_size=8)})
 
 
+def _degenerate(tier):
+    """The smallest well-formed schemas: no rule at all (an empty file / comments only), one rule."""
+    for style in range(6):
+        yield {'schema': {'rules': []}, 'style': style}
+        yield {'schema': {'rules': [{'id': '#r0', 'name': [{'lit': 'a'}], 'cons': [], 'sign': []}]}, 'style': style}
+        yield {'schema': {'rules': [{'id': '#r0', 'name': [{'pat': 'x'}, {'pat': 'x'}], 'cons': [], 'sign': []}]}, 'style': style}
+        yield {'schema': {'rules': [{'id': '#_t', 'name': [{'pat': '_t'}], 'cons': [], 'sign': []}]}, 'style': style}
+
+
 SUBCHECKS = {
+    'degenerate': SubCheck(run_case, enumerate=_degenerate, exhaustive={'quick': True, 'thorough': True},
+                           note='schemas with no rule at all and with a single rule'),
     'large-schemas': SubCheck(run_large, strategy=lambda tier: _large_case(), examples={'quick': 40, 'thorough': 600},
                               note='60..140 rules x 1..4 patterns each: several hundred pattern edges'),
     'schemas': SubCheck(run_case, strategy=lambda tier: _case('base'), examples={'quick': 800, 'thorough': 16000}),
